@@ -11,6 +11,11 @@ Proof.
   replace (s + (k - s)) with k by lia. reflexivity.
 Qed.
 
+Lemma forallb_of_map : forall (A : Type) (f : A -> bool) l1 l2, map f l1 = map f l2 -> forallb f l1 = forallb f l2.
+Proof.
+  intros A f l1 l2 H. assert (E : forall l, forallb f l = forallb (fun b : bool => b) (map f l)) by (induction l; simpl; congruence).
+  rewrite (E l1), (E l2), H. reflexivity.
+Qed.
 Section Loop.
 Variable re_match : N -> list N -> bool.
 Variable tolower : N -> N.
@@ -63,5 +68,168 @@ Proof.
                    filter (fun k => live_at c k && sem k t) (seq (S nd) (n - S nd))).
     { apply filter_ext. intro k. rewrite sem_prepare. reflexivity. }
     rewrite Hext in IH. destruct (sem nd t); rewrite IH; reflexivity.
+Qed.
+
+(* ------------------------------------------------------------------ pruning *)
+(** children of a same-line conjunction produced by regexpToMatchTreeRecursive are substring / scan leaves or nested
+    same-line conjunctions; pruning keeps that shape and never turns a child into a content substring leaf *)
+Fixpoint line_shape (t : mt) : Prop :=
+  match t with
+  | MTsubstr _ => True
+  | MTscan _ _ => True
+  | MTandLine cs => (fix all (l : list mt) : Prop := match l with [] => True | x :: r => line_shape x /\ all r end) cs
+  | _ => False
+  end.
+Fixpoint shape_ok (t : mt) : Prop :=
+  match t with
+  | MTandLine cs => (fix all (l : list mt) : Prop := match l with [] => True | x :: r => line_shape x /\ all r end) cs
+  | MTand cs => (fix all (l : list mt) : Prop := match l with [] => True | x :: r => shape_ok x /\ all r end) cs
+  | MTor cs => (fix all (l : list mt) : Prop := match l with [] => True | x :: r => shape_ok x /\ all r end) cs
+  | MTnot c' => shape_ok c'
+  | MTwrap c' => shape_ok c'
+  | _ => True
+  end.
+Lemma line_shape_list : forall cs,
+  (fix all (l : list mt) : Prop := match l with [] => True | x :: r => line_shape x /\ all r end) cs <-> Forall line_shape cs.
+Proof.
+  induction cs as [|x cs IH]; split; intro H; try constructor; try exact I.
+  - tauto. - apply IH; tauto. - inversion H; auto. - apply IH. inversion H; auto.
+Qed.
+Lemma shape_ok_list : forall cs,
+  (fix all (l : list mt) : Prop := match l with [] => True | x :: r => shape_ok x /\ all r end) cs <-> Forall shape_ok cs.
+Proof.
+  induction cs as [|x cs IH]; split; intro H; try constructor; try exact I.
+  - tauto. - apply IH; tauto. - inversion H; auto. - apply IH. inversion H; auto.
+Qed.
+Lemma line_shape_ok : forall t, line_shape t -> shape_ok t.
+Proof. destruct t; simpl; auto; intros []. Qed.
+
+Lemma tvalid_or : forall last cs, tvalid last (MTor cs) <-> Forall (tvalid last) cs.
+Proof. intros. exact (tvalid_list tolower orbit c last cs). Qed.
+Lemma shape_ok_or : forall cs, shape_ok (MTor cs) <-> Forall shape_ok cs.
+Proof. intros. exact (shape_ok_list cs). Qed.
+
+Definition prune_list_and (cs : list mt) : option (list mt) :=
+  (fix go (l : list mt) : option (list mt) :=
+     match l with
+     | [] => Some []
+     | x :: r => match prune x with
+                 | None => None
+                 | Some x' => match go r with None => None | Some r' => Some (x' :: r') end
+                 end
+     end) cs.
+Definition prune_list_or (cs : list mt) : list mt :=
+  (fix go (l : list mt) : list mt :=
+     match l with
+     | [] => []
+     | x :: r => match prune x with None => go r | Some x' => x' :: go r end
+     end) cs.
+Lemma prune_and_eq : forall cs, prune (MTand cs) = option_map MTand (prune_list_and cs).
+Proof. reflexivity. Qed.
+Lemma prune_andline_eq : forall cs, prune (MTandLine cs) = option_map MTandLine (prune_list_and cs).
+Proof. reflexivity. Qed.
+Lemma prune_or_eq : forall cs, prune (MTor cs) = match prune_list_or cs with [] => None | [x] => Some x | l => Some (MTor l) end.
+Proof. reflexivity. Qed.
+Lemma prune_list_and_cons : forall x r, prune_list_and (x :: r) =
+  match prune x with None => None | Some x' => match prune_list_and r with None => None | Some r' => Some (x' :: r') end end.
+Proof. reflexivity. Qed.
+Lemma prune_list_or_cons : forall x r, prune_list_or (x :: r) =
+  match prune x with None => prune_list_or r | Some x' => x' :: prune_list_or r end.
+Proof. reflexivity. Qed.
+
+Definition prune_ok (t : mt) : Prop :=
+  match prune t with
+  | Some t' => tvalid None t' /\ shape_ok t' /\ (forall k, k < n -> sem k t' = sem k t) /\
+               (line_shape t -> line_shape t' /\ content_sleaf t' = content_sleaf t)
+  | None => forall k, k < n -> sem k t = false
+  end.
+
+Lemma same_line_sem_ext : forall k cs cs', map content_sleaf cs' = map content_sleaf cs ->
+  same_line_sem tolower c k cs' = same_line_sem tolower c k cs.
+Proof.
+  intros k cs cs' H. unfold same_line_sem.
+  rewrite <- (forallb_map_eq _ _ (fun o : option sleaf => match o with Some _ => true | None => false end) content_sleaf cs').
+  rewrite <- (forallb_map_eq _ _ (fun o : option sleaf => match o with Some _ => true | None => false end) content_sleaf cs).
+  rewrite <- (map_map content_sleaf (fun o : option sleaf => match o with
+      | Some s => occ_offsets tolower (sl_cs s) (sl_pat s) (text_of c false k) | None => [] end) cs').
+  rewrite <- (map_map content_sleaf (fun o : option sleaf => match o with
+      | Some s => occ_offsets tolower (sl_cs s) (sl_pat s) (text_of c false k) | None => [] end) cs).
+  rewrite H. reflexivity.
+Qed.
+
+Lemma prune_list_and_spec : forall cs,
+  Forall (fun x => tvalid None x -> shape_ok x -> prune_ok x) cs -> Forall (tvalid None) cs -> Forall shape_ok cs ->
+  match prune_list_and cs with
+  | Some cs' => Forall (tvalid None) cs' /\ Forall shape_ok cs' /\ (forall k, k < n -> map (sem k) cs' = map (sem k) cs) /\
+                (Forall line_shape cs -> Forall line_shape cs' /\ map content_sleaf cs' = map content_sleaf cs)
+  | None => forall k, k < n -> forallb (sem k) cs = false
+  end.
+Proof.
+  induction cs as [|x cs IH]; intros HP Hv Hs.
+  - simpl. repeat split; auto.
+  - rewrite prune_list_and_cons. inversion HP as [|? ? HPx HPr]; inversion Hv as [|? ? Hvx Hvr]; inversion Hs as [|? ? Hsx Hsr]; subst.
+    specialize (HPx Hvx Hsx). unfold prune_ok in HPx. specialize (IH HPr Hvr Hsr).
+    destruct (prune x) as [x'|].
+    + destruct HPx as [H1 [H2 [H3 H4]]]. destruct (prune_list_and cs) as [cs'|].
+      * destruct IH as [I1 [I2 [I3 I4]]]. split; [constructor; auto|]. split; [constructor; auto|]. split.
+        -- intros k Hk. simpl. rewrite H3, I3 by auto. reflexivity.
+        -- intro Hl. inversion Hl as [|? ? Hlx Hlr]; subst. destruct (H4 Hlx) as [H5 H6]. destruct (I4 Hlr) as [I5 I6].
+           split; [constructor; auto|]. simpl. rewrite H6, I6. reflexivity.
+      * intros k Hk. simpl. rewrite IH by auto. apply andb_false_r.
+    + intros k Hk. simpl. rewrite HPx by auto. reflexivity.
+Qed.
+Lemma prune_list_or_spec : forall cs,
+  Forall (fun x => tvalid None x -> shape_ok x -> prune_ok x) cs -> Forall (tvalid None) cs -> Forall shape_ok cs ->
+  Forall (tvalid None) (prune_list_or cs) /\ Forall shape_ok (prune_list_or cs) /\
+  (forall k, k < n -> existsb (sem k) (prune_list_or cs) = existsb (sem k) cs).
+Proof.
+  induction cs as [|x cs IH]; intros HP Hv Hs.
+  - simpl. repeat split; auto.
+  - rewrite prune_list_or_cons. inversion HP as [|? ? HPx HPr]; inversion Hv as [|? ? Hvx Hvr]; inversion Hs as [|? ? Hsx Hsr]; subst.
+    specialize (HPx Hvx Hsx). unfold prune_ok in HPx. destruct (IH HPr Hvr Hsr) as [I1 [I2 I3]].
+    destruct (prune x) as [x'|].
+    + destruct HPx as [H1 [H2 [H3 _]]]. split; [constructor; auto|]. split; [constructor; auto|].
+      intros k Hk. simpl. rewrite H3, I3 by auto. reflexivity.
+    + split; [auto|]. split; [auto|]. intros k Hk. simpl. rewrite HPx, I3 by auto. reflexivity.
+Qed.
+
+Theorem prune_spec : forall t, tvalid None t -> shape_ok t -> prune_ok t.
+Proof.
+  induction t using mt_ind'; intros Hv Hs.
+  - simpl in Hv, Hs. apply tvalid_list in Hv. apply shape_ok_list in Hs.
+    pose proof (prune_list_and_spec cs H Hv Hs) as HL. unfold prune_ok. rewrite prune_and_eq.
+    destruct (prune_list_and cs) as [cs'|]; simpl.
+    + destruct HL as [L1 [L2 [L3 _]]]. split; [apply tvalid_list; auto|]. split; [apply shape_ok_list; auto|].
+      split; [|intros []]. intros k Hk. apply forallb_of_map. auto.
+    + exact HL.
+  - simpl in Hv, Hs. apply tvalid_list in Hv. apply shape_ok_list in Hs.
+    destruct (prune_list_or_spec cs H Hv Hs) as [L1 [L2 L3]]. unfold prune_ok. rewrite prune_or_eq.
+    destruct (prune_list_or cs) as [|x [|y r]] eqn:E.
+    + intros k Hk. simpl. rewrite <- L3 by auto. reflexivity.
+    + inversion L1; inversion L2; subst. split; [auto|]. split; [auto|]. split; [|intros []].
+      intros k Hk. simpl. rewrite <- L3 by auto. simpl. rewrite orb_false_r. reflexivity.
+    + split; [apply tvalid_or; auto|]. split; [apply shape_ok_or; auto|]. split; [|intros []].
+      intros k Hk. simpl sem at 2. rewrite <- L3 by auto. reflexivity.
+  - simpl in Hv, Hs. apply tvalid_list in Hv. pose proof Hs as Hls. apply line_shape_list in Hls.
+    assert (Hs' : Forall shape_ok cs) by (eapply Forall_impl; [|exact Hls]; apply line_shape_ok).
+    pose proof (prune_list_and_spec cs H Hv Hs') as HL. unfold prune_ok. rewrite prune_andline_eq.
+    destruct (prune_list_and cs) as [cs'|]; simpl.
+    + destruct HL as [L1 [L2 [L3 L4]]]. destruct (L4 Hls) as [L5 L6].
+      split; [apply tvalid_list; auto|]. split; [apply line_shape_list; auto|]. split.
+      * intros k Hk. rewrite (same_line_sem_ext k cs cs' L6). f_equal. apply forallb_of_map. auto.
+      * intros _. split; [apply line_shape_list; auto | reflexivity].
+    + intros k Hk. rewrite HL by auto. reflexivity.
+  - simpl in Hv, Hs. specialize (IHt Hv Hs). unfold prune_ok in *. simpl. destruct (prune t) as [t'|].
+    + destruct IHt as [H1 [H2 [H3 _]]]. split; [auto|]. split; [auto|]. split; [|intros []]. intros k Hk. simpl. rewrite H3 by auto. reflexivity.
+    + split; [reflexivity|]. split; [exact I|]. split; [|intros []]. intros k Hk. simpl. rewrite IHt by auto. reflexivity.
+  - simpl in Hv, Hs. specialize (IHt Hv Hs). unfold prune_ok in *. simpl. destruct (prune t) as [t'|]; simpl.
+    + destruct IHt as [H1 [H2 [H3 _]]]. split; [auto|]. split; [auto|]. split; [|intros []]. intros k Hk. simpl. auto.
+    + intros k Hk. simpl. auto.
+  - unfold prune_ok. simpl. simpl in Hv. unfold leaf_valid in Hv. destruct (sl_dead s) eqn:Hd.
+    + destruct Hv as [_ Hf]. exact Hf.
+    + split; [simpl; unfold leaf_valid; rewrite Hd; exact Hv|]. split; [exact I|]. split; auto.
+  - unfold prune_ok. simpl. split; [exact Hv|]. split; [exact I|]. split; auto.
+  - unfold prune_ok. simpl. split; [exact Hv|]. split; [exact I|]. split; auto; try (intros []).
+  - unfold prune_ok. simpl. split; [exact I|]. split; [exact I|]. split; auto; try (intros []).
 Qed.
 End Loop.
